@@ -10,6 +10,8 @@ import OnlVerif.Util.RtReplay
 import OnlVerif.Net.PortOnKReplay
 import OnlVerif.Util.TimerOnKReplay
 import OnlVerif.Net.WireOnKReplay
+import OnlVerif.Net.SPOnKReplay
+import OnlVerif.Net.TBOnKReplay
 /-! Line-protocol driver: `driver <mode>` reads cases on stdin and prints the model's observations. -/
 
 def main (args : List String) : IO UInt32 := do
@@ -28,4 +30,6 @@ def main (args : List String) : IO UInt32 := do
   | ["portk"] => portkLoop stdin; return 0
   | ["timerk"] => timerkLoop stdin; return 0
   | ["wirek"] => wirekLoop stdin; return 0
+  | ["spk"] => spkLoop stdin; return 0
+  | ["tbk"] => tbkLoop stdin; return 0
   | _ => IO.eprintln "usage: driver <kernel|fifo|gensink|timer|rt|…>"; return 2
